@@ -21,6 +21,7 @@ CONSTANTS
   WPriv = 100
   StateChangeNotifies = TRUE
   SlotsChangeNotifies = TRUE
+  ManagedEveryCycle = TRUE
   TaskEndNotifies = FALSE
   RequeueTail = FALSE
   TrackPerUser = TRUE
